@@ -99,7 +99,7 @@ theorem src_run_with_signal :
 
 /-- All four ports filled while a handler is open, then kill wins. -/
 example : trace 0 [.spawn none, .resume ⟨[], .ok⟩, .pollSpawn true, .poll, .resume ⟨[], .ok⟩,
-      .send 1, .poll, .send 2, .supArrive (.started 9), .stop .none, .kill, .resume ⟨[], .tick⟩, .poll] =
+      .send 1, .poll, .send 2, .supArrive (.started 9), .stop none, .kill, .resume ⟨[], .tick⟩, .poll] =
     [.enter .preStart .none, .tick .preStart, .exit .preStart .ok, .spawnRet .ok,
      .enter .postStart .none, .sendRet false 1 true, .tick .postStart, .exit .postStart .ok,
      .enter .handle (.msg 1), .sendRet false 2 true, .supArrive (.started 9), .stopRet false .none true,
@@ -107,7 +107,7 @@ example : trace 0 [.spawn none, .resume ⟨[], .ok⟩, .pollSpawn true, .poll, .
 
 /-- Stop outranks a queued supervision event and a queued message; the open handler finishes first. -/
 example : trace 0 [.spawn none, .resume ⟨[], .ok⟩, .pollSpawn true, .poll, .resume ⟨[], .ok⟩,
-      .send 1, .poll, .send 2, .supArrive (.started 9), .stop (.text "r"), .resume ⟨[], .ok⟩, .poll] =
+      .send 1, .poll, .send 2, .supArrive (.started 9), .stop (some "r"), .resume ⟨[], .ok⟩, .poll] =
     [.enter .preStart .none, .tick .preStart, .exit .preStart .ok, .spawnRet .ok,
      .enter .postStart .none, .sendRet false 1 true, .tick .postStart, .exit .postStart .ok,
      .enter .handle (.msg 1), .sendRet false 2 true, .supArrive (.started 9), .stopRet false (.text "r") true,
